@@ -19,12 +19,47 @@ pub fn node(i: u8) -> Node { unsafe { NODES[i as usize] } }
 pub fn key(i: u8) -> u8 { unsafe { KEYS[i as usize] } }
 pub fn put(i: u8, n: Node) { unsafe { NODES[i as usize] = n; } }
 pub fn put_entry(i: u8, k: u8, n: Node) { unsafe { NODES[i as usize] = n; KEYS[i as usize] = k; } }
+/// signature of a word: (length, first byte, third byte).  Dictionaries are chosen so that signatures are unique
+/// (checked by `dict_ok`), which lets the recorder identify a key without a memcmp per dictionary word.
+fn sig(s: &str) -> (usize, u8, u8) {
+    let b = s.as_bytes();
+    (b.len(), if b.len() > 0 { b[0] } else { 0 }, if b.len() > 2 { b[2] } else { 0 })
+}
 /// dictionary index of a string (255 when it is not a dictionary word)
 pub fn word_id(s: &str) -> u8 {
     let d = unsafe { DICT };
+    let k = sig(s);
     let mut i = 0;
-    while i < d.len() { if d[i] == s { return i as u8; } i += 1; }
+    while i < d.len() { if sig(d[i]) == k { return i as u8; } i += 1; }
     255
+}
+/// all signatures of the dictionary are distinct
+pub fn dict_ok() -> bool {
+    let d = unsafe { DICT };
+    let mut i = 0;
+    while i < d.len() { let mut j = i + 1; while j < d.len() { if sig(d[i]) == sig(d[j]) { return false; } j += 1; } i += 1; }
+    true
+}
+/// the key string of dictionary word `k`, built byte by byte from a table lookup (no symbolic pointer: when `k` is
+/// symbolic and all dictionary words have the same length, the string has a concrete length and symbolic bytes)
+pub fn key_string(k: u8) -> String {
+    let d = unsafe { DICT };
+    let len = d[0].len();
+    let mut same = true;
+    let mut i = 1;
+    while i < d.len() { if d[i].len() != len { same = false; } i += 1; }
+    if !same { return d[k as usize].to_string(); }
+    let mut v: Vec<u8> = Vec::with_capacity(len);
+    let mut j = 0;
+    while j < len {
+        // table lookup: ite over the dictionary at byte position j
+        let mut b = d[0].as_bytes()[j];
+        let mut w = 1;
+        while w < d.len() { if k as usize == w { b = d[w].as_bytes()[j]; } w += 1; }
+        v.push(b);
+        j += 1;
+    }
+    unsafe { String::from_utf8_unchecked(v) }
 }
 
 #[derive(Clone, Copy, Debug)]
@@ -50,7 +85,7 @@ impl Iterator for MapIter {
             let i = self.cur;
             self.cur += 1;
             if i == self.removed { continue; }
-            return Some((word(key(i)).to_string(), KV(node(i))));
+            return Some((key_string(key(i)), KV(node(i))));
         }
         None
     }
